@@ -36,6 +36,7 @@ void valid(const std::string &key, const Spline<Real, o> &s, const std::vector<R
   stats().discharged++;
   // the grid the object lives on still has the original strictly increasing points
   for (size_t k = 0; k < n; k++) E.prove(key + "/grid-point", sym::eq(sup.getGrid()[k], pts[k]));
+  for (size_t k = 0; k + 1 < n; k++) E.prove(key + "/grid-strictly-increasing", sym::lt(sup.getGrid()[k], sup.getGrid()[k + 1]));
 }
 
 struct Pool {
@@ -94,6 +95,7 @@ void sequence_case(size_t n, std::pair<size_t, size_t> wa, std::pair<size_t, siz
     valid(key + "m-valid", P.m, g);
     valid(key + "foreign-valid", P.foreign, h);
   }
+  if (ops.size() == 1 && ops[0] == 0) E.control("grid-order-not-vacuous", sym::gt(P.a.getSupport().getGrid()[0], P.a.getSupport().getGrid()[1]));
   // every object can still be combined and assigned to
   try {
     auto r = P.a + P.b;
